@@ -6,4 +6,10 @@ export GOFLAGS=-mod=mod GOPROXY=off GOSUMDB=off GOTOOLCHAIN=local GOWORK=off
 mkdir -p bin evidence replay
 sort -u /repo/go.sum /repo/tests/go.sum > harness/go.sum
 (cd harness && go build -o ../bin/vcheck ./cmd/vcheck)
+# base Go build cache for the checks' private caches (see harness/internal/work seedCache); rebuilt when missing
+# or when the repository's dependencies changed
+stamp="$(cat /repo/go.sum /repo/tests/go.sum 2>/dev/null | sha256sum | cut -c1-16)-$(go version | tr ' ' _)"
+if [ ! -d bin/gocache-base ] || [ "$(cat bin/gocache-base.stamp 2>/dev/null)" != "$stamp" ]; then
+  if VERIF_HOME="$PWD" ./bin/vcheck warm "$PWD/bin/gocache-base"; then echo "$stamp" > bin/gocache-base.stamp; else echo "warning: no base build cache (checks still work, each compiles its dependencies itself)"; rm -rf bin/gocache-base; fi
+fi
 echo "setup ok"
